@@ -5,7 +5,7 @@ cd "$(dirname "$0")"
 export GOFLAGS=-mod=mod GOPROXY=off GOSUMDB=off GOTOOLCHAIN=local
 mkdir -p .work evidence
 export GOCACHE="$PWD/.work/gocache"
-(cd coq && coq_makefile -f _CoqProject -o Makefile >/dev/null && timeout 3000 make -k -j16 COQC="timeout 1200 coqc" >/dev/null 2>../.work/coq-build.log || true)
+(cd coq && ulimit -v 12000000 && coq_makefile -f _CoqProject -o Makefile >/dev/null && timeout 3000 make -k -j16 COQC="timeout 1200 coqc" >/dev/null 2>../.work/coq-build.log || true)
 (cd driver && ./build.sh)
 cp /repo/go.sum harness/go.sum 2>/dev/null || true
 (cd harness && go build -tags verif -o ../.work/yaeh .)
